@@ -148,7 +148,18 @@ class Ctx:
         if summ is None:
             terms.LEN_LOG = []
             try:
-                I, outs = interp.summarize(S, b, ps, adts=self.adts, **kw)
+                blown = getattr(self, '_blown', None)
+                if blown is None:
+                    blown = self._blown = set()
+                if generic_path in blown:
+                    # the same function already exhausted the exploration budget in another suite / configuration of this run
+                    I = interp.Interp(S, adts=self.adts)
+                    I.notes.append('STOP: exploration budget exceeded for this function earlier in this run')
+                    outs = []
+                else:
+                    I, outs = interp.summarize(S, b, ps, adts=self.adts, **kw)
+                    if any('budget exceeded' in n for n in I.notes):
+                        blown.add(generic_path)
                 summ = Summary(b, I, outs, ps)
                 summ.len_log = terms.LEN_LOG
             finally:
